@@ -1,10 +1,12 @@
 // Package c15 attacks the request path of thunder with untrusted input and with cancellation:
-//   cancel  - fault enumeration: one HTTP request / one federated sub-request per cancellation point
-//             of the request context (before the request, at every rerunner hook, inside a resolver,
-//             after), measuring that the call returns and leaves no goroutine behind;
-//   hostile - syntactically valid GraphQL that thunder does not support or must reject, and
-//             fragment-spread bombs of width w and depth d with the number of validation steps counted;
-//   random  - seeded random bytes and mutated valid texts as query, variables and envelopes.
+//
+//	cancel  - fault enumeration: one HTTP request / one federated sub-request per cancellation point
+//	          of the request context (before the request, at every rerunner hook, inside a resolver,
+//	          after), measuring that the call returns and leaves no goroutine behind;
+//	hostile - syntactically valid GraphQL that thunder does not support or must reject, and
+//	          fragment-spread bombs of width w and depth d with the number of validation steps counted;
+//	random  - seeded random bytes and mutated valid texts as query, variables and envelopes.
+//
 // Parse_Trace.tla judges every record (outcome alphabet, step bound); OneShot.tla is the model of the
 // cancellation part.
 package c15
@@ -15,10 +17,14 @@ import (
 	"encoding/json"
 	"flag"
 	"fmt"
+	"github.com/samsarahq/thunder/batch"
 	"math/rand"
 	"net/http"
 	"net/http/httptest"
+	"os"
+	"os/exec"
 	"runtime"
+	"sort"
 	"strings"
 	"sync"
 	"sync/atomic"
@@ -358,38 +364,139 @@ func wsCancelCase(point string) Rec {
 	return rec
 }
 
+// ---- panicking resolvers in every placement ----
+
+type PItem struct {
+	Id   int64
+	Name string
+}
+
+// panicPlacements: where a resolver that panics can sit in a query -> the query that reaches it.
+var panicPlacements = map[string]string{
+	"field":            `{ pitems { edges { node { id boom } } } }`,
+	"expensive_field":  `{ pitems { edges { node { id boomE } } } }`,
+	"batch_field":      `{ pitems { edges { node { id boomB } } } }`,
+	"root_field":       `{ rootBoom }`,
+	"sort_field":       `{ pitems(sortBy: "boomS", sortOrder: "asc") { edges { node { id } } } }`,
+	"expensive_sort":   `{ pitems(sortBy: "boomSE", sortOrder: "asc") { edges { node { id } } } }`,
+	"batch_sort":       `{ pitems(sortBy: "boomSB", sortOrder: "asc") { edges { node { id } } } }`,
+	"filter_field":     `{ pitemsF(filterText: "a") { edges { node { id } } } }`,
+	"expensive_filter": `{ pitemsFE(filterText: "a") { edges { node { id } } } }`,
+	"batch_filter":     `{ pitemsFB(filterText: "a") { edges { node { id } } } }`,
+	"no_panic_control": `{ pitems(sortBy: "ok", sortOrder: "asc") { edges { node { id } } } }`,
+}
+
+func panicSchema() *graphql.Schema {
+	s := schemabuilder.NewSchema()
+	q := s.Query()
+	list := func(ctx context.Context) []*PItem {
+		return []*PItem{{1, "a"}, {2, "b"}, {3, "ab"}}
+	}
+	boom := func(it *PItem) string { panic("c15: resolver panics") }
+	ok := func(it *PItem) string { return it.Name }
+	boomBatch := func(m map[batch.Index]*PItem) (map[batch.Index]string, error) { panic("c15: batch resolver panics") }
+	q.FieldFunc("pitems", list, schemabuilder.Paginated,
+		schemabuilder.SortField("ok", ok), schemabuilder.SortField("boomS", boom),
+		schemabuilder.SortField("boomSE", boom, schemabuilder.Expensive), schemabuilder.BatchSortField("boomSB", boomBatch))
+	q.FieldFunc("pitemsF", list, schemabuilder.Paginated, schemabuilder.FilterField("boomF", boom))
+	q.FieldFunc("pitemsFE", list, schemabuilder.Paginated, schemabuilder.FilterField("boomFE", boom, schemabuilder.Expensive))
+	q.FieldFunc("pitemsFB", list, schemabuilder.Paginated, schemabuilder.BatchFilterField("boomFB", boomBatch))
+	q.FieldFunc("rootBoom", func() string { panic("c15: root resolver panics") })
+	it := s.Object("PItem", PItem{})
+	it.Key("id")
+	it.FieldFunc("boom", boom)
+	it.FieldFunc("boomE", boom, schemabuilder.Expensive)
+	it.BatchFieldFunc("boomB", boomBatch)
+	s.Mutation()
+	return s.MustBuild()
+}
+
+// panicChild runs one placement through the real HTTP handler and prints OUTCOME=<ok|error>; if the panic
+// escapes, the process dies - which is what the parent observes.
+func panicChild(name string) error {
+	text, ok := panicPlacements[name]
+	if !ok {
+		return fmt.Errorf("unknown placement %s", name)
+	}
+	body, _ := json.Marshal(map[string]interface{}{"query": text, "variables": map[string]interface{}{}})
+	req := httptest.NewRequest("POST", "/graphql", bytes.NewReader(body))
+	w := httptest.NewRecorder()
+	graphql.HTTPHandler(panicSchema()).ServeHTTP(w, req)
+	var resp struct {
+		Errors []string `json:"errors"`
+	}
+	json.Unmarshal(w.Body.Bytes(), &resp)
+	// the server still answers a second request
+	req2 := httptest.NewRequest("POST", "/graphql", bytes.NewReader([]byte(`{"query":"{ pitems { edges { node { id } } } }","variables":{}}`)))
+	w2 := httptest.NewRecorder()
+	graphql.HTTPHandler(panicSchema()).ServeHTTP(w2, req2)
+	time.Sleep(20 * time.Millisecond) // goroutines spawned for expensive fields get to run
+	if len(resp.Errors) > 0 {
+		fmt.Printf("OUTCOME=error %s\n", cut(resp.Errors[0], 120))
+	} else {
+		fmt.Println("OUTCOME=ok")
+	}
+	return nil
+}
+
+func panicCase(name string) Rec {
+	rec := Rec{Kind: "panic", Name: name, Text: panicPlacements[name]}
+	start := time.Now()
+	ctx, cancel := context.WithTimeout(context.Background(), 60*time.Second)
+	defer cancel()
+	out, err := exec.CommandContext(ctx, os.Args[0], "c15", "-panicchild", name).CombinedOutput()
+	rec.Ms = int(time.Since(start) / time.Millisecond)
+	rec.Returned = true
+	s := string(out)
+	switch {
+	case strings.Contains(s, "OUTCOME=error"):
+		rec.Outcome = "error"
+	case strings.Contains(s, "OUTCOME=ok"):
+		rec.Outcome = "ok"
+	default:
+		// the child process died: the panic was not contained
+		rec.Outcome = "crash"
+		if i := strings.Index(s, "panic:"); i >= 0 {
+			rec.Err = cut(s[i:], 200)
+		} else {
+			rec.Err = cut(fmt.Sprint(err, " ", s), 200)
+		}
+	}
+	return rec
+}
+
 // ---- hostile structured input ----
 
 var constructs = map[string]string{
-	"subscription_op":      "subscription { t { id } }",
-	"two_operations":       "query A { t { id } } query B { t { id } }",
-	"type_definition":      "type X { a: Int } { t { id } }",
-	"undefined_fragment":   "{ t { ...Nope } }",
-	"duplicate_fragment":   "{ t { ...F } } fragment F on T { id } fragment F on T { name }",
-	"cyclic_fragments":     "{ t { ...A } } fragment A on T { ...B } fragment B on T { ...A }",
-	"self_cyclic_fragment": "{ t { ...A } } fragment A on T { self { ...A } }",
-	"unused_fragment":      "{ t { id } } fragment F on T { id }",
-	"variable_in_default":  "query Q($a: Int = $b, $b: Int) { echo(x: $a) }",
+	"subscription_op":       "subscription { t { id } }",
+	"two_operations":        "query A { t { id } } query B { t { id } }",
+	"type_definition":       "type X { a: Int } { t { id } }",
+	"undefined_fragment":    "{ t { ...Nope } }",
+	"duplicate_fragment":    "{ t { ...F } } fragment F on T { id } fragment F on T { name }",
+	"cyclic_fragments":      "{ t { ...A } } fragment A on T { ...B } fragment B on T { ...A }",
+	"self_cyclic_fragment":  "{ t { ...A } } fragment A on T { self { ...A } }",
+	"unused_fragment":       "{ t { id } } fragment F on T { id }",
+	"variable_in_default":   "query Q($a: Int = $b, $b: Int) { echo(x: $a) }",
 	"required_with_default": "query Q($a: Int! = 3) { echo(x: $a) }",
-	"duplicate_args":       "{ echo(x: 1, x: 2) }",
-	"object_literal_arg":   "{ echo(x: {a: 1}) }",
-	"list_literal_arg":     "{ echo(x: [1, 2]) }",
-	"nested_list_literal":  "{ echo(x: [[[[[[1]]]]]]) }",
-	"skip_without_if":      "{ t @skip { id } }",
-	"skip_if_string":       "{ t @skip(if: \"yes\") { id } }",
-	"include_if_null_var":  "query Q($v: Boolean) { t @include(if: $v) { id } }",
-	"unknown_directive":    "{ t @nope(if: true) { id } }",
-	"alias_conflict_name":  "{ a: t { id } a: ts { id } }",
-	"alias_conflict_args":  "{ a: echo(x: 1) a: echo(x: 2) }",
-	"typename_with_args":   "{ __typename(x: 1) }",
-	"typename_with_sub":    "{ t { __typename { x } } }",
-	"empty_query":          "",
-	"only_braces":          "{ }",
-	"panicking_resolver":   "{ boom t { id } }",
-	"mutation_on_query":    "mutation { t { id } }",
-	"huge_int":             "{ echo(x: 99999999999999999999999999) }",
-	"float_for_int":        "{ echo(x: 1.5e300) }",
-	"unicode_escape":       "{ echo(x: \"\\u0000\\ud800\") }",
+	"duplicate_args":        "{ echo(x: 1, x: 2) }",
+	"object_literal_arg":    "{ echo(x: {a: 1}) }",
+	"list_literal_arg":      "{ echo(x: [1, 2]) }",
+	"nested_list_literal":   "{ echo(x: [[[[[[1]]]]]]) }",
+	"skip_without_if":       "{ t @skip { id } }",
+	"skip_if_string":        "{ t @skip(if: \"yes\") { id } }",
+	"include_if_null_var":   "query Q($v: Boolean) { t @include(if: $v) { id } }",
+	"unknown_directive":     "{ t @nope(if: true) { id } }",
+	"alias_conflict_name":   "{ a: t { id } a: ts { id } }",
+	"alias_conflict_args":   "{ a: echo(x: 1) a: echo(x: 2) }",
+	"typename_with_args":    "{ __typename(x: 1) }",
+	"typename_with_sub":     "{ t { __typename { x } } }",
+	"empty_query":           "",
+	"only_braces":           "{ }",
+	"panicking_resolver":    "{ boom t { id } }",
+	"mutation_on_query":     "mutation { t { id } }",
+	"huge_int":              "{ echo(x: 99999999999999999999999999) }",
+	"float_for_int":         "{ echo(x: 1.5e300) }",
+	"unicode_escape":        "{ echo(x: \"\\u0000\\ud800\") }",
 	"block_comment_garbage": "{ t { id } } # \x00\xff",
 }
 
@@ -500,12 +607,16 @@ func cut(s string, n int) string {
 // Main: vh c15 -out recs.ndjson -seed 1 -rand 2000 -maxdepth 14
 func Main(args []string) error {
 	fs := flag.NewFlagSet("c15", flag.ContinueOnError)
+	child := fs.String("panicchild", "", "internal: run one panicking-resolver placement and print its outcome")
 	out := fs.String("out", "", "")
 	seed := fs.Int64("seed", 1, "")
 	nrand := fs.Int("rand", 1000, "")
 	maxDepth := fs.Int("maxdepth", 14, "")
 	if err := fs.Parse(args); err != nil {
 		return err
+	}
+	if *child != "" {
+		return panicChild(*child)
 	}
 	rx.WriteThenReadDelay = 0
 	sb := schema()
@@ -517,6 +628,17 @@ func Main(args []string) error {
 	w, err := tj.NewWriter(*out)
 	if err != nil {
 		return err
+	}
+	// a resolver that panics, in every placement, each in a process of its own
+	{
+		var names []string
+		for n := range panicPlacements {
+			names = append(names, n)
+		}
+		sort.Strings(names)
+		for _, n := range names {
+			w.Write(panicCase(n))
+		}
 	}
 	// cancellation over the websocket protocol
 	for rep := 0; rep < 2; rep++ {
